@@ -700,7 +700,12 @@ func editWorkTree(c *Ctx, w *World, h *Hist, dir string) map[string]string {
 			continue
 		}
 		full := filepath.Join(dir, p)
-		switch t.Choose(6, "edit-kind") {
+		switch t.Choose(7, "edit-kind") {
+		case 6:
+			// the user emptied the file
+			os.Chmod(full, 0644)
+			os.WriteFile(full, nil, 0644)
+			edits[p] = "truncated to zero bytes"
 		case 0:
 			os.Chmod(full, 0644)
 			os.WriteFile(full, []byte(fmt.Sprintf("locally edited %s\n", p)), 0644)
